@@ -244,11 +244,17 @@ def update_connectivity(
     # setting the dtype explicitly, and adding the _FillValue attribute,
     # xarray will cooperate.
     include_row = ~numpy.ma.getmask(row_indexes)
+
+    def new_value(item: Any) -> Any:
+        # Entries that were already missing, and entries that refer to an
+        # element that has been dropped, are both missing in the new array.
+        if item is numpy.ma.masked:
+            return fill_value
+        value = column_values[item]
+        return fill_value if value is numpy.ma.masked else value
+
     raw_values = numpy.array([
-        [
-            column_values[item] if item is not numpy.ma.masked else fill_value
-            for item in row
-        ]
+        [new_value(item) for item in row]
         for row in old_array[include_row]
     ], dtype=dtype)
     values = numpy.ma.masked_equal(raw_values, fill_value)
